@@ -676,7 +676,7 @@ func genMixed(spec string) interface{} {
 			tm[k] = v.(*Inner)
 		}
 		return map[string]interface{}{"m": tm, "top": 1}
-	case "filter", "tfilter":
+	case "filter", "tfilter", "qfilter":
 		if fam == "tfilter" {
 			tm := map[string]*Inner{}
 			for k, v := range m {
@@ -704,6 +704,7 @@ var MixedFamilies = map[string]string{
 	"tslice":  `1 in v`,
 	"tptr":    `v.X == 1`,
 	"filter":  `x == 1`,
+	"qfilter": `any m as k, v { v == "abc" }`,
 	"tfilter": `X == 1`,
 }
 
@@ -721,6 +722,18 @@ func MixedElem(fam string, c byte, j int) interface{} {
 				return []int{1}
 			}
 			return map[string]interface{}{"z": 1}
+		}
+	case "qfilter":
+		// elements are themselves maps that a quantifier inside the filter
+		// expression walks: T is decided by its second key, E errors on its first
+		// key before a decisive second one, F has nothing decisive
+		switch c {
+		case 'T':
+			return map[string]interface{}{"m": map[string]interface{}{"a": "zzz", "b": "abc"}}
+		case 'F':
+			return map[string]interface{}{"m": map[string]interface{}{"a": "zzz", "b": "yyy"}}
+		default:
+			return map[string]interface{}{"m": map[string]interface{}{"a": 5 + j, "b": "abc"}}
 		}
 	case "fold":
 		// keys that differ only in case, none spelled like the selector: a
